@@ -254,6 +254,7 @@ func corrC17(r *Run) {
 			}
 		})
 		r.Count("sweep/"+name, true, "exhaustive per-rune sweep "+name)
+		r.Evaluations += 1112064 - 1
 	}
 	{
 		enc := coding.UCS2Coding.Encoding().NewEncoder()
@@ -265,6 +266,7 @@ func corrC17(r *Run) {
 			}
 		})
 		r.Count("sweep/ucs2", true, "exhaustive per-rune sweep ucs2")
+		r.Evaluations += 1112064 - 1
 		enc = coding.ASCIICoding.Encoding().NewEncoder()
 		for x := rune(0); x < 0x80; x++ {
 			b, ok := encodeOne(enc, x)
@@ -288,6 +290,7 @@ func corrC17(r *Run) {
 				fmt.Sprintf("encode %d %s", byte(c), hex.EncodeToString([]byte(string(x)))), fmt.Sprintf("octets=%x decoded=%q", b, d), fmt.Sprintf("decoded=%q", string(x)))
 		}
 		r.Count("rt-sweep/"+csName(c), true, "exhaustive per-rune round trip "+csName(c))
+		r.Evaluations += 1112064 - 1
 	}
 	// ---- 3. availability, all 256 data_coding values
 	for b := 0; b < 256; b++ {
